@@ -13,6 +13,7 @@ mod gen;
 mod hist;
 mod model;
 mod rng;
+mod wire;
 
 use std::cell::RefCell;
 
